@@ -176,8 +176,10 @@ def c16_invalid(seed, tier):
     r = random.Random(seed + 7)
     dna = [ord(c) for c in "ACGT"]
     iupac = [ord(c) for c in "ACGTRYSWKMBDHVN"]
-    bad_dna = [ord(c) for c in "acgtNUXRY-.0123456789 \t\n*"] + [0xe9, 0x3b1, 0x1f9ec]
-    bad_iupac = [ord(c) for c in "acgtnUEZ.0123456789 \t\n*"] + [0xe9, 0x3b1, 0x1f9ec]
+    # non-ASCII characters, including ones whose code point ends in the byte of a valid symbol (U+0141 = 0x100 + 'A', ...)
+    wide = [0xe9, 0x3b1, 0x1f9ec] + [0x100 + ord(c) for c in "ACGTN"] + [0x200 + ord("G"), 0x1f400 + ord("T"), 0x2000 + ord("C"), 0x100 + ord("-")]
+    bad_dna = [ord(c) for c in "acgtNUXRY-.0123456789 \t\n*"] + wide
+    bad_iupac = [ord(c) for c in "acgtnUEZ.0123456789 \t\n*"] + wide
     out = []
     for kind, alpha, bad in (("dna", dna, bad_dna), ("iupac", iupac, bad_iupac)):
         for b in bad:
@@ -185,8 +187,9 @@ def c16_invalid(seed, tier):
             t = [r.choice(alpha) for _ in range(n)]
             pos = r.choice([0, n, r.randrange(n + 1)])
             out.append((kind, t[:pos] + [b] + t[pos:]))
-    for b in (ord("a"), ord("N"), 0xe9):
+    for b in (ord("a"), ord("N"), 0xe9, 0x100 + ord("G"), 0x100 + ord("A")):
         out.append(("kmer:usize", [ord("A"), b, ord("C")]))
+        out.append(("kmer:usize", [ord("A"), ord("C"), ord("G"), ord("T"), ord("A"), ord("C"), b]))
     return out
 
 
